@@ -160,7 +160,8 @@ class TapeHooks:
                     # the target lies behind a measured run of unknown length: consume the look-ahead
                     # one byte per step (the explorer treats the step as a loop head), unfolding the
                     # run when the cells in front of it are used up
-                    if st.ahead[1] == 0:
+                    tok, idx, back = st.ahead
+                    if not (idx >= 1 and idx + back + m.ahead_rel(st, v[1]) >= 1):
                         m.unfold_run(st)
                     self.consume(m, st, 1)
                     st.flags["summary_head"] = True
@@ -212,7 +213,7 @@ class TapeHooks:
             st.w_recent.append(c)
         del st.tape[:r]
         if st.ahead is not None:
-            tok, idx = st.ahead
+            tok, idx, back = st.ahead
             if r >= idx and st.run is None:
                 # the cursor reaches (or passes) the measured position: it becomes an ordinary
                 # position token behind the cursor
@@ -228,7 +229,7 @@ class TapeHooks:
                 st.ahead = None
                 st.advance(r - idx)
             else:
-                st.ahead = (tok, idx - r)
+                st.ahead = (tok, idx - r, back)
                 st.advance(r)
         else:
             st.advance(r)
@@ -822,7 +823,7 @@ def canonicalise(m, st):
             st.flags["w_start"] = map_loc(map_loc(st.flags["w_start"], g1), g2)
         st.chain = [ren.get(t, t) for t in st.chain]
         if st.ahead is not None:
-            st.ahead = (ren.get(st.ahead[0], st.ahead[0]), st.ahead[1])
+            st.ahead = (ren.get(st.ahead[0], st.ahead[0]),) + tuple(st.ahead[1:])
     st.ntok = len(st.chain) + 1
     # 6. cells: GC + renumber in deterministic order
     order = []
